@@ -30,6 +30,10 @@ opt :: (v: i32) -> ?i32 { v }
 '''
 
 NAMES = ("a", "b")
+# what a use prints when it resolves to the built-in: [type name] `T.(7)` -> 7, [nil] `hlp.isnil(nil)` -> 1 (a wrongly resolved integer gives 0 or an error)
+BUILTIN_MARK = {False: 7, True: 1}
+BUILTIN_POOLS = [{"a": "u8", "b": "nil"}, {"a": "f32", "b": "char"}]
+HELPER = "isnil :: (o: ?i32) -> i64 { switch v in o { i32 => 0, nil => 1 } }\n"
 KINDS = ["blk", "if", "while", "switch:a", "switch:b", "switchd:a", "switchd:b", "lambda:a", "lambda:b", "cparam:a", "cparam:b", "comptime:a", "comptime:b"]
 
 
@@ -66,8 +70,12 @@ def seqs(depth, leaf_len, shapes_full, kinds):
 class Gen:
     """prints one skeleton as a case body (one statement per line) and resolves every use"""
 
-    def __init__(self, globals_present):
+    def __init__(self, globals_present, spell=None):
         self.globals = globals_present  # subset of NAMES
+        # `spell`: the two logical names spelled as built-in names (a type name / `nil`); a use with no visible binding then
+        # resolves to the built-in instead of being undefined, and is written in a form that is only valid for that resolution
+        self.spell = spell or {"a": "a", "b": "b"}
+        self.builtin = spell is not None
         self.k = 0
         self.lines = []
         self.decls = []
@@ -103,11 +111,19 @@ class Gen:
             if frames.get("hidden") and name in frames["hidden"]:
                 continue  # bound in the creator's body: not judged
             v = self.resolve(name, frames)
-            self.emit(f"pr(i64.({name}));")
+            if v is None and self.builtin:
+                self.emit(f"pr({self.builtin_use(name)});")
+                self.out.append(BUILTIN_MARK[self.spell[name] == "nil"])
+                continue
+            self.emit(f"pr(i64.({self.spell[name]}));")
             if v is None:
                 self.undef_lines.append((len(self.lines) - 1, name))
             else:
                 self.out.append(v)
+
+    def builtin_use(self, name):
+        sp = self.spell[name]
+        return "hlp.isnil(nil)" if sp == "nil" else f"i64.({sp}.(7))"
 
     def seq(self, items, frames, lines_target=None):
         frames["scopes"].append({})
@@ -116,7 +132,7 @@ class Gen:
             if it[0] == "decl":
                 v = self.fresh_val()
                 op = ":=" if v % 2 else "::"
-                self.emit(f"{it[1]} {op} {v};")
+                self.emit(f"{self.spell[it[1]]} {op} {v};")
                 frames["scopes"][-1][it[1]] = v
             else:
                 self.child(it[1], it[2], frames)
@@ -149,7 +165,7 @@ class Gen:
         elif kind.startswith("switch:"):
             name = kind[7:]
             v = self.fresh_val()
-            self.emit(f"switch {name} in opt({v}) {{ i32 => {{")
+            self.emit(f"switch {self.spell[name]} in opt({v}) {{ i32 => {{")
             frames["scopes"].append({name: v})
             self.seq(sub, frames)
             frames["scopes"].pop()
@@ -158,7 +174,7 @@ class Gen:
             # the same with a default arm instead of the `nil` arm (the default arm binds the whole optional)
             name = kind[8:]
             v = self.fresh_val()
-            self.emit(f"switch {name} in opt({v}) {{ i32 => {{")
+            self.emit(f"switch {self.spell[name]} in opt({v}) {{ i32 => {{")
             frames["scopes"].append({name: v})
             self.seq(sub, frames)
             frames["scopes"].pop()
@@ -166,7 +182,7 @@ class Gen:
         elif kind.startswith("lambda:"):
             name = kind[7:]
             v = self.fresh_val()
-            self.emit(f"f{u} :: ({name}: i32) {{")
+            self.emit(f"f{u} :: ({self.spell[name]}: i32) {{")
             inner = {"scopes": [], "params": {name: v}, "hidden": self.visible_names(frames) - {name}}
             self.seq(sub, inner)
             self.emit("};")
@@ -182,7 +198,7 @@ class Gen:
             body, und = self.lines, self.undef_lines
             self.lines, self.undef_lines = saved, saved_undef
             gname = f"g_CASE_{u}"
-            self.decls.append((gname, name, body, und))
+            self.decls.append((gname, self.spell[name], body, und))
             self.emit(f"{gname}({v});")
         elif kind.startswith("comptime:"):
             tail = kind[9:]
@@ -191,7 +207,7 @@ class Gen:
             for it in sub:
                 if it[0] == "decl":
                     v = self.fresh_val()
-                    self.emit(f"{it[1]} := {v};")
+                    self.emit(f"{self.spell[it[1]]} := {v};")
                     inner["scopes"][-1][it[1]] = v
             if tail in inner["hidden"] and tail not in inner["scopes"][-1]:
                 # bound in the creator's body and not redeclared inside: not judged, use a literal tail
@@ -199,7 +215,13 @@ class Gen:
                 self.emit("};")
                 return
             v = self.resolve(tail, inner)
-            self.emit(tail)
+            if v is None and self.builtin:
+                self.emit(self.builtin_use(tail))
+                self.emit("};")
+                self.emit(f"pr(i64.(c{u}));")
+                self.out.append(BUILTIN_MARK[self.spell[tail] == "nil"])
+                return
+            self.emit(self.spell[tail])
             if v is None:
                 self.undef_lines.append((len(self.lines) - 1, tail))
             self.emit("};")
@@ -210,8 +232,8 @@ class Gen:
                 self.emit(f"pr(i64.(c{u}));")
 
 
-def build_case(skeleton, globals_present, idx):
-    g = Gen(globals_present)
+def build_case(skeleton, globals_present, idx, spell=None):
+    g = Gen(globals_present, spell)
     g.seq(skeleton, {"scopes": [], "params": {}})
     decl_lines = []
     decl_undef = []
@@ -225,6 +247,8 @@ def build_case(skeleton, globals_present, idx):
         decl_lines.append("}")
     body = [l.replace("g_CASE_", f"g_{idx}_") for l in g.lines]
     key = f"{'+'.join(sorted(globals_present)) or 'none'}/{skel_str(skeleton)}"
+    if spell:
+        key = f"builtin-names/{spell['a']},{spell['b']}/" + key
     meta = {"undef_body": g.undef_lines, "undef_decls": decl_undef, "ndecl_lines": len(decl_lines)}
     if g.undef_lines or decl_undef:
         c = Case(key, "\n".join(body), None, decls="\n".join(decl_lines), accept=False, reject_re="undefined", meta=meta)
@@ -339,6 +363,26 @@ def run(tier, seed):
                                 batches.append([m.case])
         if not sample:
             sample = [{"case": c.key, "body": c.body[:600], "expected": c.expected, "accept": c.accept} for c in (cases[5], cases[len(cases) // 2], cases[-1])]
+    # the same skeletons with the two names spelled as built-in names (`u8`/`nil`, `f32`/`char`): a use with no visible binding
+    # is the built-in, everything else shadows it (the `nil =>` arm form is left out: its `nil` would be shadowed too)
+    bkinds = [k for k in KINDS if not k.startswith("switch:")]
+    bskels = seqs(1, 2, True, bkinds)
+    if not quick:
+        bskels += [s for s in seqs(2, 1, False, bkinds) if depth_of(s) == 2]
+    n_builtin = 0
+    for pi, spell in enumerate(BUILTIN_POOLS):
+        for cfg in configs:
+            prelude = prelude0 + 'hlp :: #import("hlp.capy");\n' + "".join(f"{spell[n]} :: {1000 if n == 'a' else 2000};\n" for n in cfg)
+            cases = [build_case(s, set(cfg), i, spell) for i, s in enumerate(bskels)]
+            assert all(c.accept for c in cases)
+            runner = core.Runner(f"c05b{pi}" + "".join(cfg), batch_size=100, prelude=prelude)
+            runner.extra_files = {"hlp.capy": HELPER}
+            all_mism += runner.run(cases)
+            compiles += runner.compiles
+            n_builtin += len(cases)
+            total += len(cases)
+            n_accept += len(cases)
+            outcomes |= {c.expected for c in cases}
     if n_accept < 100 or n_reject < 100 or len(outcomes) < 50:
         core.machinery_failure("vacuous run")
     coverage = {
@@ -348,7 +392,8 @@ def run(tier, seed):
         "exhaustive": True,
         "rule": "a case = (binding skeleton, global configuration); every case is compiled by the real CLI; cases without undefined uses are executed",
         "bounds_completed": {"skeletons": len(skels), "global_configurations": 4, "nesting_depth": 2, "constructs": KINDS,
-                             "executed": n_accept, "diagnostic_line_sets_checked": n_reject},
+                             "executed": n_accept, "diagnostic_line_sets_checked": n_reject,
+                             "builtin_name_pools": [sorted(p.values()) for p in BUILTIN_POOLS], "builtin_name_cases": n_builtin},
         "distinct_outcomes": len(outcomes),
         "compilations": compiles,
         "samples": sample,
